@@ -111,7 +111,7 @@ def Walked (r : Cutter × Option Err) : Prop :=
 theorem huffTail_full (c : Cutter) (hc : c.OK) (ll dl : Array Nat) (hl hd : Huff) (ctx : BlockCtx c ll dl hl hd)
     (minL minD fuelS pE : Nat) (out T : Bytes)
     (hspec : huffBlock hl hd minL minD c.bits.bytes none 0 fuelS c.bits.pos out = .next pE T)
-    (hcd : c.decodedLen = (out.size : Int)) (hT : (T.size : Int) < 2147483648)
+    (k : Nat) (hcd : c.decodedLen + (k : Int) = (out.size : Int)) (hc0 : 0 ≤ c.decodedLen) (hT : (T.size : Int) < 2147483648)
     (hecn' : c.endCodeNBits = ll.getD 256 0) (hfit : pE ≤ 8 * c.maxEncodedLen) (isFirst : Bool) :
     (c.huffTail isFirst).2 = none := by
   have hfull := huffLoop_full hl hd minL minD ll dl fuelS (8 * c.bits.bytes.size + 2) c none c.decodedLen out pE T hc ctx
@@ -127,7 +127,7 @@ theorem doHuffman_full (c : Cutter) (hc : c.OK) (ll dl : Array Nat) (hl hd : Huf
     (hHl : mkHuff ll = some hl) (hHd : mkHuff dl = some hd) (hll : ll.size ≤ 288) (hdl : dl.size ≤ 32)
     (minL minD fuelS pE : Nat) (out T : Bytes)
     (hspec : huffBlock hl hd minL minD c.bits.bytes none 0 fuelS c.bits.pos out = .next pE T)
-    (hcd : c.decodedLen = (out.size : Int)) (hT : (T.size : Int) < 2147483648)
+    (k : Nat) (hcd : c.decodedLen + (k : Int) = (out.size : Int)) (hc0 : 0 ≤ c.decodedLen) (hT : (T.size : Int) < 2147483648)
     (hfit : pE ≤ 8 * c.maxEncodedLen) (isFirst : Bool) : Walked (c.doHuffman isFirst ll dl) := by
   rw [doHuffman_eq]
   have hlo := offAt16_le ll 288 hll
@@ -179,13 +179,13 @@ theorem doHuffman_full (c : Cutter) (hc : c.OK) (ll dl : Array Nat) (hl hd : Huf
         exact huffTail_full _ hc3 ll dl hl hd ctx minL minD fuelS pE out T
           (by show huffBlock hl hd minL minD c.bits.unread.bytes none 0 fuelS c.bits.unread.pos out = .next pE T
               rw [hup]; exact hspec)
-          hcd hT hL.symm hfit isFirst
+          k hcd hc0 hT hL.symm hfit isFirst
 
 attribute [local irreducible] Spec.fixedLitLens Spec.fixedDistLens Spec.fixedLit Spec.fixedDist
 
 theorem fixed_full (s : Bytes) (c : Cutter) (hc : c.OK) (hb : c.bits.bytes = s) (p : Nat)
     (hp : c.bits.pos = p + 3) (out : Bytes) (p1 : Nat) (out1 : Bytes) (hty : bitsLE s (p + 1) 2 = 1)
-    (hbody : blockBody s none 0 p out = .next p1 out1) (hcd : c.decodedLen = (out.size : Int))
+    (hbody : blockBody s none 0 p out = .next p1 out1) (k : Nat) (hcd : c.decodedLen + (k : Int) = (out.size : Int)) (hc0 : 0 ≤ c.decodedLen)
     (hT : (out1.size : Int) < 2147483648) (hfit : p1 ≤ 8 * c.maxEncodedLen) (isFirst : Bool) :
     Walked (c.doStaticHuffman isFirst) := by
   have e1 : ¬ ((1 : Nat) = 0) := by omega
@@ -195,11 +195,11 @@ theorem fixed_full (s : Bytes) (c : Cutter) (hc : c.OK) (hb : c.bits.bytes = s) 
   rw [static_ll, static_dl]
   exact doHuffman_full c hc fixedLitLens fixedDistLens fixedLit fixedDist fixedLit_some fixedDist_some
     (by rw [fixedLit_256.1]; omega) (by rw [fixedDist_size]; omega) 7 5 (8 * s.size + 1) p1 out out1
-    (by rw [hb, hp]; exact hspec) hcd hT hfit isFirst
+    (by rw [hb, hp]; exact hspec) k hcd hc0 hT hfit isFirst
 
 theorem dynamic_full (s : Bytes) (c : Cutter) (hc : c.OK) (hb : c.bits.bytes = s) (p : Nat)
     (hp : c.bits.pos = p + 3) (out : Bytes) (p1 : Nat) (out1 : Bytes) (hty : bitsLE s (p + 1) 2 = 2)
-    (hbody : blockBody s none 0 p out = .next p1 out1) (hcd : c.decodedLen = (out.size : Int))
+    (hbody : blockBody s none 0 p out = .next p1 out1) (k : Nat) (hcd : c.decodedLen + (k : Int) = (out.size : Int)) (hc0 : 0 ≤ c.decodedLen)
     (hT : (out1.size : Int) < 2147483648) (hfit : p1 ≤ 8 * c.maxEncodedLen) (isFirst : Bool) :
     Walked (c.doDynamicHuffman isFirst) := by
   have e0 : ¬ ((2 : Nat) = 0) := by omega
@@ -228,11 +228,11 @@ theorem dynamic_full (s : Bytes) (c : Cutter) (hc : c.OK) (hb : c.bits.bytes = s
         (8 * s.size + 1) p1 out out1
         (by show huffBlock hl hd minL hd.minLen bits5.bytes none 0 (8 * s.size + 1) bits5.pos out = .next p1 out1
             rw [y5, q5]; exact hbody)
-        hcd hT hfit isFirst
+        k hcd hc0 hT hfit isFirst
 
 theorem stored_full (s : Bytes) (c : Cutter) (hc : c.OK) (hb : c.bits.bytes = s) (p : Nat)
     (hp : c.bits.pos = p + 3) (out : Bytes) (p1 : Nat) (out1 : Bytes) (hty : bitsLE s (p + 1) 2 = 0)
-    (hbody : blockBody s none 0 p out = .next p1 out1) (hcd : c.decodedLen = (out.size : Int))
+    (hbody : blockBody s none 0 p out = .next p1 out1) (k : Nat) (hcd : c.decodedLen + (k : Int) = (out.size : Int)) (hc0 : 0 ≤ c.decodedLen)
     (hT : (out1.size : Int) < 2147483648) (hfit : p1 ≤ 8 * c.maxEncodedLen) : Walked c.doStored := by
   obtain ⟨g1, g2, g3, g4, g5⟩ := stored_body s p out p1 out1 hty hbody
   generalize hqd : (p + 3 + 7) / 8 = q at *
@@ -258,10 +258,10 @@ theorem stored_full (s : Bytes) (c : Cutter) (hc : c.OK) (hb : c.bits.bytes = s)
   rw [or_shl8 _ _ (s.getD q 0).toNat_lt, or_shl8 _ _ (s.getD (q + 2) 0).toNat_lt, hlend]
   have hsum : ¬ (len + ((s.getD (q + 2) 0).toNat + 256 * (s.getD (q + 3) 0).toNat) ≠ 0xFFFF) := by omega
   simp only [hsum, if_false]
-  have hw : wrap32 (c.decodedLen + (len : Int)) = ((out.size + len : Nat) : Int) := by
-    rw [hcd]; rw [wrap32_range] <;> omega
+  have hw : wrap32 (c.decodedLen + (len : Int)) = c.decodedLen + (len : Int) := by
+    rw [wrap32_range] <;> omega
   rw [hw]
-  have hnn : ¬ (((out.size + len : Nat) : Int) < 0) := by omega
+  have hnn : ¬ (c.decodedLen + (len : Int) < 0) := by omega
   have hrem : c.maxEncodedLen - (q + 4) ≥ len := by omega
   simp only [hnn, if_false, hrem, if_true]
 
